@@ -12,7 +12,7 @@ HERE = os.path.dirname(os.path.abspath(__file__))
 VERIF = os.path.abspath(os.path.join(HERE, '..'))
 
 
-def build(repo, workdir):
+def build(repo, workdir, serde=False):
     crate = os.path.join(workdir, 'crate')
     shutil.rmtree(crate, ignore_errors=True)
     os.makedirs(crate)
@@ -26,23 +26,28 @@ def build(repo, workdir):
     shutil.rmtree(w, ignore_errors=True)
     os.makedirs(os.path.join(w, 'src'))
     shutil.copy(os.path.join(VERIF, 'witness', 'src', 'main.rs'), os.path.join(w, 'src', 'main.rs'))
-    open(os.path.join(w, 'Cargo.toml'), 'w').write('''[package]
+    # the stand-in is built in the crate's DEFAULT configuration (what Verus and the suite see); only C12, whose statement has a serde half,
+    # gets a second pass with that feature on
+    open(os.path.join(w, 'Cargo.toml'), 'w').write("""[package]
 name = "witness"
 version = "0.0.0"
 edition = "2021"
 
-[dependencies]
-nodejs-semver = { path = "../crate", features = ["serde"] }
-miette = "7.4"
-serde_json = "1.0"
+[features]
+default = [%s]
+serde = []
 
+[dependencies]
+nodejs-semver = { path = "../crate"%s }
+miette = "7.4"
+%s
 [profile.dev]
 opt-level = 1
 overflow-checks = true
 debug-assertions = true
 
 [workspace]
-''')
+""" % ('"serde"' if serde else '', ', features = ["serde"]' if serde else '', 'serde_json = "1.0"\n' if serde else ''))
     shutil.copy(os.path.join(repo, 'Cargo.lock'), os.path.join(w, 'Cargo.lock'))
     os.makedirs(os.path.join(w, '.cargo'), exist_ok=True)
     open(os.path.join(w, '.cargo', 'config.toml'), 'w').write('[net]\noffline = true\n')
@@ -58,7 +63,20 @@ debug-assertions = true
 def search(pid, repo, workdir, tier, level=None):
     t0 = time.time()
     os.makedirs(workdir, exist_ok=True)
-    w, env, p = build(repo, workdir)
+    if pid == 'C12' and not os.environ.get('VERIF_STANDIN_NOSERDE'):
+        # first in the default configuration (no serde), then with the serde half
+        os.environ['VERIF_STANDIN_NOSERDE'] = '1'
+        try:
+            first = search(pid, repo, workdir, tier, level)
+        finally:
+            del os.environ['VERIF_STANDIN_NOSERDE']
+        if first.get('found') or first.get('error'):
+            return first
+        w, env, p = build(repo, workdir, serde=True)
+        env_extra = {'VERIF_SERDE': '1'}
+    else:
+        w, env, p = build(repo, workdir, serde=False)
+        env_extra = {}
     if p.returncode != 0:
         return {'found': False, 'by': 'native bounded search', 'error': 'witness crate does not build: ' + p.stderr[-800:]}
     lvl = level if level is not None else (1 if tier == 'thorough' else 0)
@@ -67,7 +85,7 @@ def search(pid, repo, workdir, tier, level=None):
         seed = int(os.environ.get('VERIF_SEED', '0') or 0)
         kf = json.load(open(os.path.join(VERIF, 'known_findings.json')))
         known = [k['standin_input'] for k in kf.get('findings', []) if k.get('property') == pid and k.get('standin_input')]
-        r = subprocess.run([exe, pid, str(lvl), str(seed)], capture_output=True, text=True, timeout=1500, env=dict(os.environ, VERIF_KNOWN='\n'.join(known)))
+        r = subprocess.run([exe, pid, str(lvl), str(seed)], capture_output=True, text=True, timeout=1500, env=dict(os.environ, VERIF_KNOWN='\n'.join(known), **env_extra))
     except subprocess.TimeoutExpired:
         return {'found': False, 'by': 'native bounded search', 'error': 'timeout', 'wall_s': round(time.time() - t0, 1)}
     out = r.stdout
